@@ -62,6 +62,35 @@ class Check(HCheck):
                 which = "trie" if after[0] != before[0] else "link"
                 ctx.fail("query-modified-store", "read-only request %s (%s) changed the %s store (%d -> %d bytes)" % (name, status, which, len(before[0] if which == "trie" else before[1]), len(after[0] if which == "trie" else after[1])))
                 return
+        # absent LRUs whose first missing stem needs more than one block (a lookup that compares
+        # heads first), at levels that already hold siblings, at the root level, and sharing the
+        # 74-byte head of a stem that is present
+        t = w.t
+        longs = [A + L.long_stem(75, b"q"), Ax + L.long_stem(149, b"q"), b"s:" + b"z" * 100 + b"|", A + L.long_stem(149)[:-3] + b"zz|", A + L.long_stem(149) + L.long_stem(80, b"k")]
+        for l in longs:
+            for name, thunk in (
+                ("retrieve_webentity", lambda: t.retrieve_webentity(l)),
+                ("retrieve_prefix", lambda: t.retrieve_prefix(l)),
+                ("get_potential_prefix", lambda: t.get_potential_prefix(l)),
+                ("get_webentity_by_prefix", lambda: t.get_webentity_by_prefix(l)),
+                ("get_page_links", lambda: t.get_page_links(l)),
+                ("get_page_degree", lambda: t.get_page_degree(l)),
+                ("get_webentity_pages", lambda: t.get_webentity_pages(1, [l])),
+                ("get_webentity_child_webentities", lambda: t.get_webentity_child_webentities(1, [l])),
+                ("paginate_webentity_pages", lambda: t.paginate_webentity_pages(1, [l], page_count=1)),
+                ("paginate_webentity_pagelinks", lambda: t.paginate_webentity_pagelinks(1, [l], source_page_count=1)),
+            ):
+                status, val = observe.call(w, thunk)
+                n += 1
+                ctx.count("calls_on_absent_long_lru")
+                after = w.store_bytes()
+                if after != before:
+                    if status == "failure":
+                        ctx.count("modified_by_unclassified_failure")
+                        before = after
+                        continue
+                    ctx.fail("query-modified-store", "read-only request %s(%s) (%s) changed a store (trie %d -> %d bytes, links %d -> %d bytes)" % (name, L.show(l), status, len(before[0]), len(after[0]), len(before[1]), len(after[1])))
+                    return
         ctx.obs(n)
 
 
